@@ -174,13 +174,21 @@ fn group_op(prop: &str) -> BoxedStrategy<Op> {
     ];
     let remove = proptest::collection::vec(any_addr(), 0..=2);
     let upd = (who(prop), add, remove).prop_map(|(by, add, remove)| Op::UpdateMembers { by, add, remove }).boxed();
+    // one call touching more than a page (30) of addresses: bulk add, bulk re-weight + remove
+    let bulk = (who(prop), 28u8..46, wt(), 0u8..46, any::<bool>())
+        .prop_map(|(by, n, w, k, rm)| {
+            let add: Vec<(u8, Wt)> = (0..n).map(|i| (100 + i, w.clone())).collect();
+            let remove: Vec<u8> = if rm { (0..k.min(n)).map(|i| 100 + i).collect() } else { vec![] };
+            Op::UpdateMembers { by, add, remove }
+        })
+        .boxed();
     let adm = (who(prop), admin_target()).prop_map(|(by, to)| Op::UpdateAdmin { by, to }).boxed();
     let addh = (who(prop), hook_ix()).prop_map(|(by, hook)| Op::AddHook { by, hook }).boxed();
     let remh = (who(prop), hook_sel()).prop_map(|(by, hook)| Op::RemoveHook { by, hook }).boxed();
     if prop == "C14" {
-        prop_oneof![12 => upd, 3 => adm, 6 => addh, 4 => remh].boxed()
+        prop_oneof![12 => upd, 1 => bulk, 3 => adm, 6 => addh, 4 => remh].boxed()
     } else {
-        prop_oneof![30 => upd, 1 => adm, 1 => addh, 1 => remh].boxed()
+        prop_oneof![30 => upd, 1 => bulk, 1 => adm, 1 => addh, 1 => remh].boxed()
     }
 }
 
@@ -328,6 +336,10 @@ impl World {
         self.stake.is_none()
     }
     fn addr_str(&self, ix: u8) -> String {
+        // indices from 100 up name extra addresses used by bulk updates (more than one page of members)
+        if ix >= 100 {
+            return self.d.api.addr_make(&format!("bulk{}", ix - 100)).to_string();
+        }
         self.addr_strs[ix as usize % N_ADDR_ALL as usize].clone()
     }
     fn hook_str(&self, ix: u8) -> String {
